@@ -1,8 +1,7 @@
 (** Transcription of cicada's job table code:
       src/shell.rs   insert_job, mark_job_member_stopped / _continued,
                      mark_job_as_running / _stopped, remove_pid_from_job
-                     (with core::slice::binary_search_by, toolchain source
-                     library/core/src/slice/mod.rs, transcribed line by line)
+                     (Iterator::position since /repo bbf8fc1)
       src/types.rs   Job::all_members_stopped / all_members_running, WaitStatus
       src/signals.rs REAP_MAP / STOP_MAP / CONT_MAP / KILL_MAP and handle_sigchld
       src/jobc.rs    mark_job_as_done, mark_job_member_stopped / _continued
@@ -86,31 +85,17 @@ Definition all_members_stopped (j : job) : bool :=
 Definition all_members_running (j : job) : bool :=
   match jstopped j with [] => true | _ => false end.
 
-(** ---------- core::slice::binary_search_by, f = |p| p.cmp(x)
-    [size], [base], [half], [mid] as in the source; the while loop runs at
-    most [size] times, [fuel] is that bound. Returns inl i for Ok(i) and
-    inr i for Err(i). *)
-Fixpoint bs_loop (fuel : nat) (l : list Z) (x : Z) (base size : nat) : nat :=
-  match fuel with
-  | O => base
-  | S f =>
-      if (size <=? 1)%nat then base
-      else
-        let half := (size / 2)%nat in
-        let mid := (base + half)%nat in
-        (* base = select_unpredictable(cmp == Greater, base, mid) *)
-        let base' := if nth mid l 0 >? x then base else mid in
-        bs_loop f l x base' (size - half)%nat
+(** ---------- Iterator::position(|p| *p == pid): index of the first match.
+    (Until /repo commit bbf8fc1 this was slice::binary_search on the vector in
+    launch order; that transcription and its lemmas are kept, outside every
+    property cone, in Historical/BinarySearch.v.) *)
+Fixpoint position_from (i : nat) (l : list Z) (x : Z) : option nat :=
+  match l with
+  | [] => None
+  | y :: r => if y =? x then Some i else position_from (S i) r x
   end.
 
-Definition binary_search (l : list Z) (x : Z) : nat + nat :=
-  let size := length l in
-  if (size =? 0)%nat then inr 0%nat
-  else
-    let base := bs_loop size l x 0%nat size in
-    let c := nth base l 0 in
-    if c =? x then inl base
-    else inr (base + (if Z.ltb c x then 1 else 0))%nat.
+Definition position (l : list Z) (x : Z) : option nat := position_from 0%nat l x.
 
 Fixpoint remove_at (i : nat) (l : list Z) : list Z :=
   match l, i with
@@ -167,16 +152,16 @@ Definition sh_mark_job_as_running (t : table) (gid : Z) (bg : bool) : table :=
 Definition sh_mark_job_as_stopped (t : table) (gid : Z) : table :=
   upd_gid (fun j => mkjob (jid j) (jgid j) (jpids j) (jstopped j) Stopped true) gid t.
 
-(** remove_pid_from_job: binary_search on the pid vector as it is (insertion
-    order), remove on Ok, drop the job when the vector is empty. *)
+(** remove_pid_from_job: position of the pid in the vector, remove on Some,
+    drop the job when the vector is empty. *)
 Fixpoint remove_pid_from_job (t : table) (gid pid : Z) : table :=
   match t with
   | [] => []
   | j :: r =>
       if jgid j =? gid then
-        let pids' := match binary_search (jpids j) pid with
-                     | inl i => remove_at i (jpids j)
-                     | inr _ => jpids j
+        let pids' := match position (jpids j) pid with
+                     | Some i => remove_at i (jpids j)
+                     | None => jpids j
                      end in
         match pids' with
         | [] => r
